@@ -207,7 +207,21 @@ impl Gen {
     pub fn new(seed: u64, p: Profile) -> Gen {
         let mut rng = Rng::new(seed);
         let n_auth = 2 + rng.usize(p.authors.max(2) - 1);
-        let authors: Vec<B32> = (0..n_auth).map(|_| rng.bytes32()).collect();
+        let mut authors: Vec<B32> = (0..n_auth).map(|_| rng.bytes32()).collect();
+        if rng.chance(1, 10) {
+            // a key with extreme leading bytes, and a neighbour differing in the last byte only
+            let mut k = rng.bytes32();
+            let fill = if rng.chance(1, 2) { 0xff } else { 0x00 };
+            for b in k.iter_mut().take(12) {
+                *b = fill;
+            }
+            authors[0] = k;
+            if authors.len() > 2 {
+                let mut k2 = k;
+                k2[31] ^= 1;
+                authors[1] = k2;
+            }
+        }
         // a small window of timestamps so that ties and neighbours are frequent
         let mut times: Vec<u64> = (0..8).map(|i| T0 + i * rng.range(1, 3)).collect();
         times.sort();
@@ -263,6 +277,46 @@ impl Gen {
             extra_tables,
             clock: T0 + 100,
         }
+    }
+
+    /// an event id: random, now and then with extreme leading / trailing bytes (never all 0xff,
+    /// which no hash produces and the range ends of the indexes exclude by construction)
+    fn new_id(&mut self) -> B32 {
+        let mut id = self.rng.bytes32();
+        match self.rng.below(40) {
+            0 => {
+                for b in id.iter_mut().take(8) {
+                    *b = 0xff;
+                }
+            }
+            1 => {
+                for b in id.iter_mut().take(8) {
+                    *b = 0x00;
+                }
+            }
+            2 => {
+                for b in id.iter_mut().skip(24) {
+                    *b = 0xff;
+                }
+            }
+            3 => {
+                // 0xff everywhere but 8 random bytes in the middle
+                for (n, b) in id.iter_mut().enumerate() {
+                    if !(12..20).contains(&n) {
+                        *b = 0xff;
+                    }
+                }
+            }
+            4 => {
+                for (n, b) in id.iter_mut().enumerate() {
+                    if !(12..20).contains(&n) {
+                        *b = 0x00;
+                    }
+                }
+            }
+            _ => {}
+        }
+        id
     }
 
     fn time(&mut self) -> u64 {
@@ -424,7 +478,7 @@ impl Gen {
             let who = hex(&self.rng.pick(&self.authors).clone());
             tags.push(vec!["p".into(), who]);
         }
-        EvSpec { id: self.rng.bytes32(), pk, kind, at: self.time(), tags, content: self.content() }
+        EvSpec { id: self.new_id(), pk, kind, at: self.time(), tags, content: self.content() }
     }
 
     /// another version at an existing (or neighbouring) replaceable address
@@ -490,7 +544,7 @@ impl Gen {
         if self.rng.chance(1, 3) {
             tags.push(vec!["t".into(), self.tag_value()]);
         }
-        EvSpec { id: self.rng.bytes32(), pk: a.pk, kind: a.kind, at, tags, content: self.content() }
+        EvSpec { id: self.new_id(), pk: a.pk, kind: a.kind, at, tags, content: self.content() }
     }
 
     pub fn resubmit(&mut self) -> Option<EvSpec> {
